@@ -21,7 +21,7 @@ LEAN_MODULE = 'CC.Properties.C07'
 LEVEL = 'proof'
 THEOREMS = [
     'CC.C07_table_total', 'CC.C07_reads_written', 'CC.C07_table_wellformed',
-    'CC.C07_one_to_one', 'CC.C07_nothing_dropped_iff', 'CC.C07_nothing_dropped',
+    'CC.C07_one_to_one', 'CC.C07_never_drops', 'CC.C07_nothing_dropped', 'CC.C07_unknown_kind_raises',
     'CC.C07_branch_id_terminals', 'CC.C07_position_independent',
     'CC.C07_faithful_resistor', 'CC.C07_faithful_conductance', 'CC.C07_faithful_impedance', 'CC.C07_faithful_admittance',
     'CC.C07_faithful_capacitor', 'CC.C07_faithful_inductance', 'CC.C07_faithful_load', 'CC.C07_faithful_short_circuit',
@@ -33,7 +33,7 @@ THEOREMS = [
     'CC.C07_faithful_nonperiodic', 'CC.C07_harmonic', 'CC.C07_faithful',
     'CC.C07_ground', 'CC.C07_limits_dc', 'CC.C07_limits_zero_resistance',
     'CC.C07_limits_open_switch', 'CC.C07_open_switch_record', 'CC.C07_open_switch_network',
-    'CC.C07_zero_fundamental_counterexample',
+    'CC.C07_periodic_fundamental_guarded', 'CC.C07_periodic_fundamental_positive', 'CC.C07_zero_fundamental_rejected',
 ]
 OPEN_STATEMENTS = []
 ASSUMPTIONS = [
@@ -199,11 +199,20 @@ def check_case(ctx, out, descs, w, wres, origin, tested=None):
         out.nontrivial(key)
     # ---- exactly one branch per non-ground component, same order (whole network)
     if N is not None:
-        want = [c.id for c in non_ground if c.type in tr.transformers]
+        # from the property, not from the table: exactly one branch per non-ground component (or an exception)
+        want = [c.id for c in non_ground]
         got = [b.id for b in N.branches]
         if got != want:
-            out.spec_fail(canon_of('*', 'order_or_multiplicity'), 'branch ids are not the component ids in order', inp,
-                          impl=got, spec=want, descs=descs, w=w, wres=wres)
+            missing = [c for c in non_ground if c.id not in got]
+            if missing:
+                known = {f.__name__ for f in gc.constructors().values()}
+                m0 = missing[0]
+                out.spec_fail(canon_of(m0.type, 'branch_missing', unknown_type=(m0.type not in known)),
+                              f'component {m0.id!r} of kind {m0.type!r} has no network branch (silently dropped)', inp,
+                              impl=got, spec=want, descs=descs, w=w, wres=wres)
+            else:
+                out.spec_fail(canon_of('*', 'order_or_multiplicity'), 'branch ids are not the component ids in order', inp,
+                              impl=got, spec=want, descs=descs, w=w, wres=wres)
         if sp['ground'] is not None and N.node_zero_label != sp['ground']:
             out.spec_fail(canon_of('ground', 'wrong_reference'), 'reference node is not the ground node / first terminal', inp,
                           impl=N.node_zero_label, spec=sp['ground'], descs=descs, w=w, wres=wres)
@@ -414,6 +423,8 @@ def run(ctx, out):
     check_periodic_symmetry(ctx, out)
     resolution_sweep(ctx, out)
     check_accepted_translates(ctx, out)
+    check_unknown_type(ctx, out)
+    check_infinities(ctx, out)
     for descs, w, wres in CORPUS:
         check_case(ctx, out, descs, w, wres, 'corpus')
     rng = ctx.rng('kinds')
@@ -533,6 +544,49 @@ def check_accepted_translates(ctx, out):
                 break
         else:
             out.count('boundary_translates:' + fn)
+
+def check_unknown_type(ctx, out):
+    """a component of a type no translator knows (built directly, or a table entry lost) is never dropped:
+    the conversion raises — at every position of the list, at several frequencies"""
+    rng = ctx.rng('unknown_type')
+    base = [dict(fn='dc_voltage_source', id='V', nodes=['1', '0'], args=dict(V=6.0, R=1.0)),
+            dict(fn='resistor', id='R', nodes=['1', '0'], args=dict(R=2.0)),
+            dict(fn='ground', id='gnd', nodes=['0'], args={})]
+    for kind in ('nope', '', 'Resistor', 'ground ', 'open_circuit'):
+        x = dict(fn='__raw__', kind=kind, id='X', nodes=['1', '0'], args=rng.choice([{}, dict(R=1.0)]))
+        for pos in range(len(base) + 1):
+            descs = base[:pos] + [x] + base[pos:]
+            for w in (0.0, 1.0):
+                check_case(ctx, out, descs, w, 1e-3, 'unknown_type', tested='X')
+
+def check_infinities(ctx, out):
+    """infinite values where they are physically meaningful (implementation side; the model knows R = inf only):
+    G = inf, Y = inf, C = inf at w > 0 are short circuits; Z = inf, L = inf at w > 0, V_ref = inf are open circuits.
+    Reference from circuit theory for the divider  V(2,0) = 6, R(2,1) = 2, X(1,0), R2(1,0) = 4:
+    X short: phi_1 = 0, i_X = 3;  X open: phi_1 = 4, i_X = 0."""
+    from CircuitCalculator.Circuit import components as ccp, circuit as cc, solution as sol
+    inf = math.inf
+    cases = [('conductance', dict(G=inf), 'short'), ('admittance', dict(Y=complex(inf, 0)), 'short'), ('capacitor', dict(C=inf), 'short'),
+             ('impedance', dict(Z=complex(inf, 0)), 'open'), ('inductance', dict(L=inf), 'open'), ('lamp', dict(P=2.0, V_ref=inf), 'open'),
+             ('resistor', dict(R=inf), 'open')]
+    for fn, args, want in cases:
+        out.evaluations += 1
+        inp = f'{fn}({args}) in a divider at w = 2'
+        try:
+            x = gc.build(dict(fn=fn, id='X', nodes=['1', '0'], args=args))
+            C = cc.Circuit([ccp.ground(nodes=('0',)), ccp.ac_voltage_source('V', ('2', '0'), V=6.0, w=2.0),
+                            ccp.resistor('R', ('2', '1'), R=2.0), x, ccp.resistor('R2', ('1', '0'), R=4.0)])
+            S = sol.ComplexSolution(C, w=2.0, peak_values=True)
+            phi1, ix = complex(S.get_potential('1')), complex(S.get_current('X'))
+        except Exception as e:
+            out.spec_fail(canon_of(fn, 'raises', exc=gc.tag(e), infinite_value=True), f'{inp} raises {type(e).__name__}: {e}', inp)
+            continue
+        ref = (0.0, 3.0) if want == 'short' else (4.0, 0.0)
+        if not (core.close(phi1, ref[0], 1.0, 1e-9) and core.close(ix, ref[1], 1.0, 1e-9)):
+            out.spec_fail(canon_of(fn, 'wrong_record', field='infinite_value', internal_immittance_nonzero=False, w_is_zero=False),
+                          f'{inp} is not a {want} circuit: phi_1 = {phi1}, i_X = {ix}, expected {ref}', inp)
+        else:
+            out.count('infinite_value_ok:' + fn); out.nontrivial(('infinite', fn))
 
 def check_limits(ctx, out):
     from CircuitCalculator.Circuit import components as ccp, transformers as tr
